@@ -603,11 +603,11 @@ def run(ctx):
             [("example%d" % i, e) for i, e in enumerate(examples)]
     for name, b in bases:
         add_val(copy.deepcopy(b), "base:" + name)
-    WRONG = [None, True, False, "abc", "3", [], [1], {}, {"a": 1}]
+    WRONG = [None, True, False, "abc", "3", [], [1], {}, {"a": 1}] if thorough else [None, True, "3", [1], {}]
     for bi, (name, b) in enumerate(bases):
         only_full = name == "full"
         for p, (kind, arg) in FIELDS.items():
-            if not only_full and not thorough and rng.random() < (0.6 if getp(b, p)[0] else 0.9):
+            if not only_full and not thorough and rng.random() < (0.75 if getp(b, p)[0] else 0.95):
                 continue
             vals = []
             if kind in ("integer", "number"):
